@@ -1219,6 +1219,12 @@ func (m *c02Model) checkBothFetches(r6 *kit.Rule) {
 		case m.fetchU:
 			s = s.Set("fu", "1")
 		default:
+			// a call that is not interpreted but has the means to consult an
+			// instance itself: gets a typed connection, is a method of the sync
+			// client or a function value
+			if m.mayConsult(f, call) && s.Get("ro") == "" {
+				return []kit.S{s.Set("ro", f.At(call))}
+			}
 			return nil
 		}
 		if s.Get("fl") == "1" && s.Get("fu") == "1" {
@@ -1251,6 +1257,10 @@ func (m *c02Model) checkBothFetches(r6 *kit.Rule) {
 		}
 		switch st.ReturnsNil(e.Return, e.State) {
 		case "nil":
+			if at := e.State.Get("ro"); at != "" {
+				undecided = fmt.Sprintf("`%s` at %s reports success before the node was fetched from %s, but its path runs through the call at %s, which the checker does not interpret and which can reach that instance", f.Str(e.Return), f.At(e.Return), missing(e.State), at)
+				continue
+			}
 			o.Violation("`%s` at %s reports success without having fetched the node from %s: the catch-up is skipped on the strength of state that cannot reflect a change accepted there, so a write that real-time delivery missed is never repaired", f.Str(e.Return), f.At(e.Return), missing(e.State)).WithPath(res.PathTo(e))
 			return
 		case "unknown":
@@ -1262,6 +1272,33 @@ func (m *c02Model) checkBothFetches(r6 *kit.Rule) {
 		return
 	}
 	o.OK("%d exit(s) before the second fetch, all with a non-nil error; both fetches reached on %d path state(s)", len(res.Exits), done)
+}
+
+// mayConsult: an uninterpreted call with the means to talk to an instance.
+func (m *c02Model) mayConsult(f *kit.Func, call *ast.CallExpr) bool {
+	for _, a := range call.Args {
+		if m.connSide(a) != "" {
+			return true
+		}
+	}
+	if sel, ok := ast.Unparen(call.Fun).(*ast.SelectorExpr); ok && m.connSide(sel.X) != "" {
+		return true
+	}
+	switch o := kit.Callee(m.info, call).(type) {
+	case *types.Func:
+		if cf := m.c.P.FuncOf(o); cf != nil && cf.Decl != nil && cf.Decl.Recv != nil && m.isMethodOfSync(cf) {
+			return true
+		}
+		return false
+	case *types.Var:
+		return true // function value
+	case *types.Builtin:
+		return false
+	}
+	if _, isLit := ast.Unparen(call.Fun).(*ast.FuncLit); isLit {
+		return true
+	}
+	return false
 }
 
 // ---------------------------------------------------------------------------
@@ -1673,6 +1710,7 @@ func (m *c02Model) checkCallback(o *kit.Ob, outer, cb *kit.Func, side string, k 
 	}
 	var bad, undec []string
 	var fwds []*chanFwd
+	decoded := append(append([]types.Object{}, ids...), pts)
 	st.OnCall = func(call *ast.CallExpr, n ast.Node, s kit.S) []kit.S {
 		switch r := classifyDirect(call); {
 		case r == "ok":
@@ -1681,11 +1719,24 @@ func (m *c02Model) checkCallback(o *kit.Ob, outer, cb *kit.Func, side string, k 
 			bad = append(bad, r[1:])
 		case strings.HasPrefix(r, "?"):
 			undec = append(undec, r[1:])
+		case r == "" && m.mayForward(cb, call, decoded):
+			// a helper, method or function value that receives the decoded
+			// data may do the forwarding: not interpreted, not judged
+			return []kit.S{s.Set("opq", cb.At(call))}
 		}
 		return nil
 	}
 	st.OnNode = func(n ast.Node, s kit.S) []kit.S {
+		switch n.(type) {
+		case *ast.GoStmt, *ast.DeferStmt:
+			if c02Mentions(info, n, decoded) {
+				return []kit.S{s.Set("opq", cb.At(n))}
+			}
+		}
 		if ss, ok := n.(*ast.SendStmt); ok {
+			if _, isLit := ast.Unparen(ss.Value).(*ast.CompositeLit); !isLit && c02Mentions(info, ss.Value, append(decoded, m.derivedFrom(cb, decoded)...)) {
+				return []kit.S{s.Set("opq", cb.At(ss))}
+			}
 			if cf := classifyChan(ss); cf != nil {
 				switch {
 				case strings.HasPrefix(cf.problem, "!"):
@@ -1714,6 +1765,14 @@ func (m *c02Model) checkCallback(o *kit.Ob, outer, cb *kit.Func, side string, k 
 	}
 	for _, e := range res.Exits {
 		if e.State.Get("derr") != "T" && e.State.Get("fwd") != "1" {
+			if at := e.State.Get("opq"); at != "" {
+				o.Undecided("no forward to %s is seen on a success path, but the decoded data is handed to the call at %s, which the checker does not interpret", want, at)
+				return
+			}
+		}
+	}
+	for _, e := range res.Exits {
+		if e.State.Get("derr") != "T" && e.State.Get("fwd") != "1" {
 			o.Violation("a message decoded without error can leave the callback without being forwarded to %s", want).WithPath(res.PathTo(e))
 			return
 		}
@@ -1738,6 +1797,89 @@ func (m *c02Model) checkCallback(o *kit.Ob, outer, cb *kit.Func, side string, k 
 		}
 	}
 	o.OK("decoded (ids, points) handed through a channel to the %s send in the run loop", want)
+}
+
+// c02Mentions: does the node refer to one of the objects?
+func c02Mentions(info *types.Info, n ast.Node, objs []types.Object) bool {
+	found := false
+	ast.Inspect(n, func(x ast.Node) bool {
+		if id, ok := x.(*ast.Ident); ok {
+			if o := kit.ObjOf(info, id); o != nil {
+				for _, d := range objs {
+					if d == o {
+						found = true
+					}
+				}
+			}
+		}
+		return true
+	})
+	return found
+}
+
+// derivedFrom lists local variables of f that are assigned an expression
+// mentioning one of the objects (one level).
+func (m *c02Model) derivedFrom(f *kit.Func, objs []types.Object) []types.Object {
+	var out []types.Object
+	ast.Inspect(f.Body, func(x ast.Node) bool {
+		as, ok := x.(*ast.AssignStmt)
+		if !ok {
+			return true
+		}
+		for _, r := range as.Rhs {
+			if c02Mentions(m.info, r, objs) {
+				for _, l := range as.Lhs {
+					if o := kit.ObjOf(m.info, l); o != nil && c02CarriesData(o.Type()) && !isErrorType(o.Type()) {
+						out = append(out, o)
+					}
+				}
+			}
+		}
+		return true
+	})
+	return out
+}
+
+// mayForward: an uninterpreted call that could do the forwarding on behalf of
+// the caller: a function of package client, a method of the sync client or a
+// function value, which receives (or, as a closure, captures) the data.
+func (m *c02Model) mayForward(f *kit.Func, call *ast.CallExpr, data []types.Object) bool {
+	info := m.info
+	objs := append(append([]types.Object{}, data...), m.derivedFrom(f, data)...)
+	mentions := false
+	for _, a := range call.Args {
+		if c02Mentions(info, a, objs) {
+			mentions = true
+		}
+	}
+	switch o := kit.Callee(info, call).(type) {
+	case *types.Func:
+		if o.Pkg() == nil || o.Pkg().Path() != clientPkg {
+			// other packages cannot reach the client's send functions, unless
+			// they are handed a function value that captures the data
+			for _, a := range call.Args {
+				if lit, ok := ast.Unparen(a).(*ast.FuncLit); ok && c02Mentions(info, lit, objs) {
+					return true
+				}
+			}
+			return false
+		}
+		return mentions
+	case *types.Builtin:
+		return false
+	case *types.Var:
+		if cl := f.LocalClosure(o); cl != nil && c02Mentions(info, cl.Body, objs) {
+			return true
+		}
+		return mentions
+	}
+	if lit, ok := ast.Unparen(call.Fun).(*ast.FuncLit); ok {
+		return mentions || c02Mentions(info, lit.Body, objs)
+	}
+	if tv, ok := info.Types[call.Fun]; ok && tv.IsType() {
+		return false
+	}
+	return mentions
 }
 
 // checkReceiver: the select arm that receives from ch sends the received
@@ -1848,6 +1990,31 @@ func (m *c02Model) checkReceiver(outer *kit.Func, ch types.Object, idF []*types.
 		return problem, false
 	}
 	if good == nil {
+		// the received value handed to a helper / copied into another variable:
+		// the forward may happen there
+		vs := []types.Object{v}
+		handed := ""
+		for _, st := range arm.Body {
+			ast.Inspect(st, func(x ast.Node) bool {
+				switch y := x.(type) {
+				case *ast.CallExpr:
+					if m.sendSig(info, y) == nil && m.mayForward(f, y, vs) {
+						handed = f.At(y)
+					}
+				case *ast.GoStmt, *ast.DeferStmt, *ast.SendStmt:
+					if c02Mentions(info, y, vs) {
+						handed = f.At(y)
+					}
+				}
+				return true
+			})
+		}
+		if v == nil {
+			handed = ""
+		}
+		if handed != "" || len(m.derivedFrom(f, vs)) > 0 && v != nil {
+			return "?the arm that receives the forwarded points does not send them to " + want + " itself, but hands them on (" + handed + "), which the checker does not follow", false
+		}
 		return "the arm that receives the forwarded points (`" + f.Str(arm.Comm) + "`) never sends them to " + want, false
 	}
 	// guards between the arm and the send: plain boolean locals only
